@@ -220,6 +220,8 @@ def toml(cfg):
                 v = "true" if v else "false"
             elif isinstance(v, str):
                 v = '"%s"' % v
+            elif isinstance(v, list):
+                v = json.dumps(v)
             out.append("%s = %s" % (k, v))
         out.append("")
     return "\n".join(out) + "\n"
@@ -876,6 +878,12 @@ def run(ck, root, thorough):
     cfgm = {"clones": {"min_nodes": 4, "min_lines": 6}}
     P4 = write_project(os.path.join(base, "cfgm"), {"tiny.py": TINY, "orders.py": DUP_A, "other.py": DUP_D}, cfgm)
     min_lines_sc = Scenario("cfgm-cwd ([clones] min_nodes = 4, min_lines = 6; server started in the project)", P4, P4, cfgm)
+    # the same small project where [analysis] exclude_patterns drops one of the two copies and [clones] exclude_patterns names the
+    # other files: the files are selected by [analysis] on both front ends, [clones] exclude_patterns selects nothing (was F70)
+    cfge = {"clones": {"min_nodes": 4, "min_lines": 5, "exclude_patterns": ["tiny*.py", "orders*.py"]}, "analysis": {"exclude_patterns": ["other*.py"]}}
+    P5 = write_project(os.path.join(base, "cfge"), {"tiny.py": TINY, "orders.py": DUP_A, "other.py": DUP_D}, cfge)
+    excl_scs = [Scenario("cfge-cwd ([analysis] and [clones] exclude_patterns; server started in the project)", P5, P5, cfge),
+                Scenario("cfge-path ([analysis] and [clones] exclude_patterns; server started outside the project)", P5, N, cfge)]
     # survey: the values present in the project give the boundary values of the option lattice
     rc, rep, err_, cmd = cli_analyze(base, ["--min-complexity", "1", "--min-severity", "info"], P2)
     if not rep:
@@ -888,7 +896,7 @@ def run(ck, root, thorough):
 
     # ---- 1. start every server (one process per scenario: the calls of a scenario run concurrently in its worker pool) and every CLI run
     jobs = []
-    for sc, level in scenarios + [(min_lines_sc, 0)]:
+    for sc, level in scenarios + [(min_lines_sc, 0)] + [(x, 0) for x in excl_scs]:
         cases = case_list(sc, survey, level) if level else [("detect_clones", a, "", m) for a, m in (
             ({}, "full"), ({"min_lines": 4}, "full"), ({"min_lines": 5}, "full"), ({"min_lines": 6}, "full"), ({"min_lines": 7}, "full"),
             ({"min_lines": 4, "similarity_threshold": 0.7}, "summary"), ({"min_lines": 5, "similarity_threshold": 0.65}, "detailed"))]
